@@ -85,12 +85,13 @@ func regen(nd *Node, d *nom.DetailedMomentum, kp *wallet.KeyPair) {
 func fresh(d *nom.DetailedMomentum) *nom.DetailedMomentum { return WireCopy(d) }
 
 func flip(h types.Hash, rng *rand.Rand) types.Hash {
-	h[rng.Intn(32)] ^= byte(1 << uint(rng.Intn(8)))
+	h[rng.Intn(5)] ^= byte(1 << uint(rng.Intn(8))) // inside the part the model sees
 	return h
 }
 
 // every single-field mutation of a valid momentum, raw and re-sealed, plus other signers
-func mutations(nd *Node, rng *rand.Rand, base *nom.DetailedMomentum, elected *wallet.KeyPair, parent *nom.Momentum) []cand {
+func mutations(l *ledger, rng *rand.Rand, base *nom.DetailedMomentum, elected *wallet.KeyPair, parent *nom.Momentum) []cand {
+	nd := l.nd
 	var cs []cand
 	add := func(tag string, s seal, kp *wallet.KeyPair, f func(d *nom.DetailedMomentum)) {
 		d := fresh(base)
@@ -102,6 +103,12 @@ func mutations(nd *Node, rng *rand.Rand, base *nom.DetailedMomentum, elected *wa
 			resign(d.Momentum, kp)
 			tag += "/resigned"
 		case sealRegen:
+			if kp == nil { // whoever is elected for the (possibly mutated) timestamp
+				kp = elected
+				if a := l.refProducer(int64(d.Momentum.TimestampUnix)); a != nil && KeyOf(*a) != nil {
+					kp = KeyOf(*a)
+				}
+			}
 			regen(nd, d, kp)
 			tag += "/regenerated"
 		}
@@ -110,7 +117,7 @@ func mutations(nd *Node, rng *rand.Rand, base *nom.DetailedMomentum, elected *wa
 	}
 	both := func(tag string, f func(d *nom.DetailedMomentum)) {
 		add(tag, sealNone, nil, f)
-		add(tag, sealRegen, elected, f)
+		add(tag, sealRegen, nil, f)
 	}
 	add("valid", sealNone, nil, func(d *nom.DetailedMomentum) {})
 	both("version=0", func(d *nom.DetailedMomentum) { d.Momentum.Version = 0 })
@@ -187,6 +194,12 @@ func mutations(nd *Node, rng *rand.Rand, base *nom.DetailedMomentum, elected *wa
 			}
 			d.AccountBlocks = nb
 		})
+		both("prefetched-block-replaced", func(d *nom.DetailedMomentum) {
+			i := rng.Intn(len(d.AccountBlocks))
+			h := rndHeader()
+			d.AccountBlocks[i] = &nom.AccountBlock{Version: 1, ChainIdentifier: 100, BlockType: nom.BlockTypeUserSend,
+				Address: h.Address, Hash: h.Hash, Height: h.Height}
+		})
 		both("content-header-duplicated", func(d *nom.DetailedMomentum) {
 			d.Momentum.Content = append(d.Momentum.Content, d.Momentum.Content[rng.Intn(len(d.Momentum.Content))])
 		})
@@ -197,6 +210,17 @@ func mutations(nd *Node, rng *rand.Rand, base *nom.DetailedMomentum, elected *wa
 			}
 		})
 	}
+	both("content-phantom-block-linked", func(d *nom.DetailedMomentum) {
+		// a header + block that link correctly to the account's confirmed frontier but were never applied on this node
+		var a types.Address
+		rng.Read(a[:])
+		a[0] = types.UserAddrByte
+		var hh types.Hash
+		rng.Read(hh[:])
+		d.Momentum.Content = append(d.Momentum.Content, &types.AccountHeader{Address: a, HashHeight: types.HashHeight{Hash: hh, Height: 1}})
+		d.AccountBlocks = append(d.AccountBlocks, &nom.AccountBlock{Version: 1, ChainIdentifier: 100, BlockType: nom.BlockTypeUserReceive,
+			Address: a, Hash: hh, Height: 1})
+	})
 	both("content-101-headers", func(d *nom.DetailedMomentum) {
 		for len(d.Momentum.Content) <= 100 {
 			d.Momentum.Content = append(d.Momentum.Content, rndHeader())
@@ -238,7 +262,7 @@ func observe(l *ledger, out *Out, c cand, poolBlocks []*nom.AccountBlock) {
 	d := c.d
 	m := d.Momentum
 	old := frontierOf(nd.Ch)
-	ledgerT := l.term()
+	ledgerT := l.term(int64(m.TimestampUnix))
 
 	pre := Lst()
 	acct := Lst()
@@ -282,7 +306,10 @@ func observe(l *ledger, out *Out, c cand, poolBlocks []*nom.AccountBlock) {
 	}
 	cls := errClass(err)
 	inserted := false
-	if err == nil {
+	// consensus.points.InsertMomentum walks over every tick since the previous momentum: a candidate dated at the
+	// real clock (25 years after the mock genesis) is only verified, not inserted
+	far := m.TimestampUnix > old.TimestampUnix+20000
+	if err == nil && !far {
 		if e := addMomentum(nd.Ch, tx); e != nil {
 			out.Count("momentum:add-refused")
 		}
@@ -312,11 +339,15 @@ func observe(l *ledger, out *Out, c cand, poolBlocks []*nom.AccountBlock) {
 		}
 	}
 	ctxT := Tup(U64(nd.Ch.ChainIdentifier()), I64(now0), pre, acct, exT, hashZ(m.ComputeHash()), sigOK(m))
-	out.Case("apply", Tup(ledgerT, ctxT, momTerm(m)), Tup(I64(cls), inserted), c.tag+" -> "+className[cls])
+	if far {
+		out.Case("apply_only", Tup(ledgerT, ctxT, momTerm(m)), I64(cls), c.tag+" -> "+className[cls])
+	} else {
+		out.Case("apply", Tup(ledgerT, ctxT, momTerm(m)), Tup(I64(cls), inserted), c.tag+" -> "+className[cls])
+	}
 	out.Count("momentum:class:" + className[cls])
 
 	// ---- the property's own statement, on the implementation
-	if inserted {
+	if inserted || (far && err == nil && m.Previous() == old.Identifier()) {
 		ref := l.refProducer(int64(m.TimestampUnix))
 		okProd := ref != nil && *ref == types.PubKeyToAddress(m.PublicKey)
 		okLink := m.PreviousHash == old.Hash && m.Height == old.Height+1
@@ -370,7 +401,7 @@ func momentumHistory(rng *rand.Rand, out *Out) {
 	}
 	base := &nom.DetailedMomentum{Momentum: tx.Momentum, AccountBlocks: blocks}
 	elected := KeyOf(types.PubKeyToAddress(tx.Momentum.PublicKey))
-	cs := mutations(nd, rng, base, elected, fr)
+	cs := mutations(l, rng, base, elected, fr)
 
 	// stale parent: a correctly produced momentum on top of an older own momentum (a sibling of the frontier chain)
 	if fr.Height > 2 {
